@@ -343,7 +343,7 @@ Section C07p.
   Proof.
     intros Hinv Hd Hs. pose proof Hinv as [Hnd Hall].
     assert (Same : forall x, s' = s -> x = pget s k -> pget s' k = keep s' k x) by (intros x -> ->; rewrite keep_pget; auto).
-    destruct e as [src tid c r unk|src p d|src n d|relay from d|dt|relay|csrc|].
+    destruct e as [src tid c r unk|src p d|src n d|relay from d|dt|relay|csrc| |].
     - cbn [step] in Hs. destruct r as [tr lt fam df rp ep rt mt|lt fam|peers|num peer|].
       + (* Allocate *)
         cbn [pupd]. destruct unk; [inversion Hs; subst; apply Same; reflexivity|].
@@ -400,6 +400,7 @@ Section C07p.
       destruct (find_alloc csrc (allocs s)) as [a|]; inversion Hs; subst; clear Hs; [apply pget_removed; assumption|apply Same; reflexivity].
     - cbn [step pupd] in *. inversion Hs; subst; clear Hs. unfold keep, pget. rewrite present_find. cbn [allocs set_allocs find_alloc].
       destruct (match find_alloc (fst k) (allocs s) with Some a => option_map p_dl (find_perm (snd k) (a_perms a)) | None => None end); reflexivity.
+    - cbn [step pupd] in *. inversion Hs; subst. apply Same; reflexivity.
   Qed.
   (* ---------- a client whose allocation was reported deleted in a step has none afterwards ---------- *)
   Lemma deleted_clients_app a b : deleted_clients (a ++ b) = deleted_clients a ++ deleted_clients b.
@@ -437,7 +438,7 @@ Section C07p.
     find_alloc c (allocs s') = None.
   Proof.
     intros [Hnd _] Hs Hin.
-    destruct e as [src tid c0 r unk|src p d|src n d|relay from d|dt|relay|csrc|]; cbn [step] in Hs.
+    destruct e as [src tid c0 r unk|src p d|src n d|relay from d|dt|relay|csrc| |]; cbn [step] in Hs.
     - destruct unk; [inversion Hs; subst; destruct Hin|].
       destruct r as [tr lt fam df rp ep rt mt|lt fam|peers|num peer|]; try (inversion Hs; subst; destruct Hin; fail);
         destruct (authenticate cfg s c0) as [uid|code ch]; try (inversion Hs; subst; destruct Hin; fail).
@@ -474,6 +475,7 @@ Section C07p.
       rewrite deleted_clients_close in Hin. destruct Hin as [<-|[]]. cbn [allocs set_allocs].
       apply find_alloc_none. apply remove_alloc_gone. exact Hnd.
     - inversion Hs; subst. reflexivity.
+    - inversion Hs; subst. destruct Hin.
   Qed.
   Hypothesis Hsec : cfg_seconds cfg.
 
@@ -540,7 +542,7 @@ Section C07p.
     { intros pe1 ce1 G N1 E1. cbn [fst]. split; [apply nodup_filter_keys; exact N1|].
       rewrite (aget_filter_val pkey_eqb pkey_eqb_spec _ _ _ N1), E1. reflexivity. }
     unfold pupd.
-    destruct (os_ev o) as [src tid c r unk|? ? ?|? ? ?|? ? ?|?|?|?|]; try (apply Fin; [exact N0|apply G0]).
+    destruct (os_ev o) as [src tid c r unk|? ? ?|? ? ?|? ? ?|?|?|?| |]; try (apply Fin; [exact N0|apply G0]).
     destruct r as [? ? ? ? ? ? ? ?|? ?|peers|num peer|]; try (apply Fin; [exact N0|apply G0]).
     - destruct (success_of MCreatePerm (os_acts o)); [|apply Fin; [exact N0|apply G0]].
       apply Fin; [apply (nodup_fold_aset pkey_eqb pkey_eqb_spec); exact N0|].
@@ -557,7 +559,7 @@ Section C07p.
     intros Hinv Hs Hex. rewrite present_find. apply existsb_exists in Hex as (x & Hin & E). apply addr_eqb_eq in E. subst x.
     unfold gone_of in Hin. cbn [os_ev os_acts] in Hin. apply in_app_iff in Hin as [Hin|Hin].
     - rewrite (deleted_absent _ _ _ _ _ Hinv Hs Hin). reflexivity.
-    - destruct e as [src tid c0 r unk|? ? ?|? ? ?|? ? ?|?|?|?|]; try (destruct Hin; fail).
+    - destruct e as [src tid c0 r unk|? ? ?|? ? ?|? ? ?|?|?|?| |]; try (destruct Hin; fail).
       destruct r as [? ? ? ? ? ? ? ?|lt fam|?|? ?|]; try (destruct Hin; fail).
       destruct (success_of MRefresh acts) as [at_|] eqn:Hso; [|destruct Hin].
       destruct (lifetime_attr at_) as [z|] eqn:Hl; [|destruct Hin].
@@ -580,7 +582,7 @@ Section C07p.
     match pupd cfg t e acts F2 k with Some v => if present s' (fst k) && (now s' <? v) then Some v else None | None => None end.
   Proof.
     intros [E|E].
-    - unfold pupd. destruct e as [src tid c r unk|? ? ?|? ? ?|? ? ?|?|?|?|]; rewrite ?E; try reflexivity.
+    - unfold pupd. destruct e as [src tid c r unk|? ? ?|? ? ?|? ? ?|?|?|?| |]; rewrite ?E; try reflexivity.
       all: destruct r as [? ? ? ? ? ? ? ?|? ?|peers|num peer|]; rewrite ?E; try reflexivity.
       all: try (destruct (success_of MCreatePerm acts); rewrite ?E; reflexivity).
       all: destruct num as [| |n]; rewrite ?E; try reflexivity.
@@ -845,7 +847,7 @@ Section C07c2.
   Proof.
     intros Hinv Hd Hs. pose proof Hinv as [Hnd Hall].
     assert (Same : forall x, s' = s -> x = cget s k -> cget s' k = keepc s' k x) by (intros x -> ->; rewrite keepc_cget; auto).
-    destruct e as [src tid c r unk|src p d|src n d|relay from d|dt|relay|csrc|].
+    destruct e as [src tid c r unk|src p d|src n d|relay from d|dt|relay|csrc| |].
     - cbn [step] in Hs. destruct r as [tr lt fam df rp ep rt mt|lt fam|peers|num peer|].
       + (* Allocate *)
         cbn [cupd]. destruct unk; [inversion Hs; subst; apply Same; reflexivity|].
@@ -904,6 +906,7 @@ Section C07c2.
       destruct (find_alloc csrc (allocs s)) as [a|]; inversion Hs; subst; clear Hs; [apply (cget_removed cfg); assumption|apply Same; reflexivity].
     - cbn [step cupd] in *. inversion Hs; subst; clear Hs. unfold keepc, cget. rewrite present_find. cbn [allocs set_allocs find_alloc].
       destruct (match find_alloc (fst k) (allocs s) with Some a => option_map c_dl (cfind (snd k) (a_chans a)) | None => None end); reflexivity.
+    - cbn [step cupd] in *. inversion Hs; subst. apply Same; reflexivity.
   Qed.
 
   (* the channel table chk_C07 keeps, as lookups *)
@@ -929,7 +932,7 @@ Section C07c2.
     { intros pe1 ce1 G N1 E1. cbn [snd]. split; [apply nodup_filter_keys; exact N1|].
       rewrite (aget_filter_val ckey_eqb ckey_eqb_spec _ _ _ N1), E1. reflexivity. }
     unfold cupd.
-    destruct (os_ev o) as [src tid c r unk|? ? ?|? ? ?|? ? ?|?|?|?|]; try (apply Fin; [exact N0|apply G0]).
+    destruct (os_ev o) as [src tid c r unk|? ? ?|? ? ?|? ? ?|?|?|?| |]; try (apply Fin; [exact N0|apply G0]).
     destruct r as [? ? ? ? ? ? ? ?|? ?|peers|num peer|]; try (apply Fin; [exact N0|apply G0]).
     - destruct (success_of MCreatePerm (os_acts o)); apply Fin; first [exact N0|apply G0].
     - destruct num as [| |n]; try (apply Fin; [exact N0|apply G0]).
@@ -948,7 +951,7 @@ Section C07c2.
     match cupd cfg t e acts F2 k with Some v => if present s' (fst k) && (now s' <? v) then Some v else None | None => None end.
   Proof.
     intros [E|E].
-    - unfold cupd. destruct e as [src tid c r unk|? ? ?|? ? ?|? ? ?|?|?|?|]; rewrite ?E; try reflexivity.
+    - unfold cupd. destruct e as [src tid c r unk|? ? ?|? ? ?|? ? ?|?|?|?| |]; rewrite ?E; try reflexivity.
       all: destruct r as [? ? ? ? ? ? ? ?|? ?|peers|num peer|]; rewrite ?E; try reflexivity.
       all: destruct num as [| |n]; rewrite ?E; try reflexivity.
       all: destruct peer as [[p|]|]; rewrite ?E; try reflexivity.
